@@ -318,6 +318,14 @@ example : (flatten (run exCall)).2.toBool = true := by decide
 example : (jitCopy (byId (relocate (flatten (run exCall)).1 0x10000).1.secs) (zeros 32)).isSome = true := by decide
 example : copySection (run ex17) (List.replicate 3 0xAA) 2 { padSection := true, padTarget := false } = .ok [0xCC, 0, 0] := by decide
 example : copySection (run ex17) [] 2 { padSection := true, padTarget := false } = .error .invalidArgument := by decide
+/-- address table NOT last (a later section with order INT_MAX): the used slot becomes its buffer, the virtual size and
+    `code_size()` stay, no reduction is reported (repaired relocate_to_base, C04-1) -/
+def exCallMid : List Op := exCall ++ [.newSection "z" 1 2147483647, .appendData 2 [0xC3]]
+
+example : BuildOK init exCallMid := ⟨trivial, trivial, trivial, trivial, trivial⟩
+example : codeSize (flatten (run exCallMid)).1 = 33 ∧ codeSize (relocate (flatten (run exCallMid)).1 0x10000).1 = 33 ∧
+    (relocate (flatten (run exCallMid)).1 0x10000).2.2 = 0 ∧
+    ((relocate (flatten (run exCallMid)).1 0x10000).1.secs.map (·.bufSize)) = [12, 8, 1] := by decide
 /-- repaired `JitRuntime::_add` (fixes/C10-4.patch): only an unused address-table entry → nothing to install -/
 example : (jitAdd (run [.addAddress 0x1234]) 0x10000).2.isSome = true ∧
     (match (jitAdd (run [.addAddress 0x1234]) 0x10000).2 with | some (.error .noCodeGenerated) => true | _ => false) = true := by decide
